@@ -89,16 +89,41 @@ def sorter(args):
             sel.fast_nondominated_sorting(again)
             fr2 = [by_id[k].features['front_number'] for k in range(n)]
             ctx.check('re-sorting-in-another-order-gives-the-same-ranks', fr2 != fr)
+        if args.get('inplace'):
+            # steady-state use: the SAME list object is sorted, changed in place (one member replaced by a newcomer) and
+            # sorted again by the same selector; the ranks must be the true ranks of the new content
+            lst = list(inds)
+            sel.fast_nondominated_sorting(lst)
+            new = Individual([99.0])
+            new.costs_signed = common.sym_costs(ctx, 'new', m, marker)
+            lst.pop(0)
+            lst.append(new)
+            sel.fast_nondominated_sorting(lst)
+            fr3 = [x.features.get('front_number') for x in lst]
+            ctx.check('all-ranked-after-in-place-replacement', any(f is None for f in fr3))
+            if not any(f is None for f in fr3):
+                c3 = [list(x.costs_signed) for x in lst]
+                k = len(lst)
+                bad3 = []
+                for i in range(k):
+                    dom_i = [dominates(c3[j], c3[i]) for j in range(k) if j != i]
+                    if fr3[i] == 1:
+                        bad3.append(Or(*dom_i) if dom_i else False)
+                    else:
+                        prev = [dominates(c3[j], c3[i]) for j in range(k) if j != i and fr3[j] == fr3[i] - 1]
+                        later = [dominates(c3[j], c3[i]) for j in range(k) if j != i and fr3[j] >= fr3[i]]
+                        bad3.append(Or(Not(Or(*prev)) if prev else True, Or(*later) if later else False))
+                ctx.check('rank-relation-after-in-place-replacement', Or(*bad3))
     return common.merge_stats(body, st)
 
 
 def configs(tier):
     out = []
 
-    def add(n, m, crowd=False, split=None, marker='bool', container=None):
-        out.append({'name': 'sort-n%d-m%d%s%s%s' % (n, m, '-crowd' if crowd else '', '' if marker == 'bool' else '-' + marker,
-                                                    '-' + container if container else ''),
-                    'task': 'sorter', 'args': {'n': n, 'm': m, 'crowd': crowd, 'marker': marker, 'container': container},
+    def add(n, m, crowd=False, split=None, marker='bool', container=None, inplace=False):
+        out.append({'name': 'sort-n%d-m%d%s%s%s%s' % (n, m, '-crowd' if crowd else '', '' if marker == 'bool' else '-' + marker,
+                                                      '-' + container if container else '', '-inplace-replacement' if inplace else ''),
+                    'task': 'sorter', 'args': {'n': n, 'm': m, 'crowd': crowd, 'marker': marker, 'container': container, 'inplace': inplace},
                     'weight': (n ** n) * m, 'split': split, 'engine': {'validate': 60}})
     for n in (1, 2, 3):
         for m in (1, 2):
@@ -107,6 +132,9 @@ def configs(tier):
     add(4, 2, split=48)
     add(3, 1, crowd=True)
     add(3, 2, marker='real')
+    add(2, 1, inplace=True)
+    add(2, 2, inplace=True)
+    add(3, 1, inplace=True, split=32)
     add(2, 4)
     add(2, 5)
     add(3, 4, split=32)
